@@ -109,17 +109,171 @@ def rename_case(si, a, b, ci, ni):
   return _one(si, a, b, ci, ni)
 
 
+# ---------------------------------------------------------------------------------------------------------------
+# engine-level wiring: a document with ACL resources and rules (the user-attribute rule placed before, between or
+# after the formula rules), a dropdown condition and a trigger condition; a column or table is renamed through the
+# public user actions and every stored text / parsed form / column list is compared with the expected rename
+
+ETARGETS = [("A", "X"), ("A", "Y"), ("U", "Role"), ("U", "Email"), ("A", None), ("U", None)]
+ENEW = ["Z", "Role", "X2"]
+RULES = {
+  "UA": {"resource": -1, "userAttributes": json.dumps({"name": "Attr", "charId": "Email", "tableId": "U", "lookupColId": "Email"})},
+  "F1": {"resource": -2, "aclFormula": "user.Attr.Role == rec.X and newRec.Y > 1  # X Role", "permissionsText": "none"},
+  "F2": {"resource": -3, "aclFormula": "$X != user.Attr.Email or rec.Y == 2 or user.Email == 'X'", "permissionsText": "all"},
+}
+ORDERS = [["UA", "F1", "F2"], ["F1", "UA", "F2"], ["F1", "F2", "UA"]]
+DROPDOWN = "choice.Role == $X and rec.Y > 0 and choice.Email != 'Role'"
+TRIGGER = "rec.Y > 1 and oldRec.X != rec.X"
+
+
+def _edoc(order):
+  import logging
+  logging.disable(logging.CRITICAL)
+  import engine, useractions
+  e = engine.Engine()
+  e.load_empty()
+  ap = lambda *uas: e.apply_user_actions([useractions.from_repr(list(u)) for u in uas])
+  ap(["AddTable", "U", [{"id": "Email", "type": "Text", "isFormula": False}, {"id": "Role", "type": "Text", "isFormula": False}]])
+  ap(["AddTable", "A", [{"id": "X", "type": "Text", "isFormula": False}, {"id": "Y", "type": "Int", "isFormula": False},
+                        {"id": "R", "type": "Ref:U", "isFormula": False}]])
+  ap(["AddRecord", "_grist_ACLResources", -1, {"tableId": "*", "colIds": "*"}],
+     ["AddRecord", "_grist_ACLResources", -2, {"tableId": "A", "colIds": "X,Y"}],
+     ["AddRecord", "_grist_ACLResources", -3, {"tableId": "A", "colIds": "*"}],
+     *[["AddRecord", "_grist_ACLRules", None, RULES[k]] for k in ORDERS[order]])
+  ap(["ModifyColumn", "A", "R", {"widgetOptions": json.dumps({"dropdownCondition": {"text": DROPDOWN}})}])
+  tref = [r for r, t in zip(e.fetch_table("_grist_Tables").row_ids, e.fetch_table("_grist_Tables").columns["tableId"]) if t == "A"][0]
+  ap(["AddRecord", "_grist_Triggers", None, {"tableRef": tref, "condition": TRIGGER, "eventTypes": ["L", "add"], "enabled": True}])
+  return e, ap
+
+
+def _estate(e):
+  rules = e.fetch_table("_grist_ACLRules")
+  res = e.fetch_table("_grist_ACLResources")
+  rmap = {r: (t, c) for r, t, c in zip(res.row_ids, res.columns["tableId"], res.columns["colIds"])}
+  cols = e.fetch_table("_grist_Tables_column")
+  tabs = e.fetch_table("_grist_Tables")
+  tid = dict(zip(tabs.row_ids, tabs.columns["tableId"]))
+  out = {"rules": [], "resources": sorted(rmap.values())}
+  for i in range(len(rules.row_ids)):
+    out["rules"].append({"res": rmap.get(rules.columns["resource"][i]), "text": rules.columns["aclFormula"][i],
+                         "parsed": rules.columns["aclFormulaParsed"][i], "ua": rules.columns["userAttributes"][i]})
+  for i, r in enumerate(cols.row_ids):
+    wo = cols.columns["widgetOptions"][i]
+    if wo and "dropdownCondition" in wo:
+      out["dropdown"] = dict(json.loads(wo)["dropdownCondition"], table=tid[cols.columns["parentId"][i]], type=cols.columns["type"][i])
+  trg = e.fetch_table("_grist_Triggers")
+  out["trigger"] = dict(json.loads(trg.columns["condition"][0]), table=tid[trg.columns["tableRef"][0]])
+  return out
+
+
+def _expect_text(old_text, new_text, parsed, parents, old, new):
+  """new text parses to the old tree with exactly `.old` under `parents` renamed; stored parsed form consistent"""
+  old_tree = pf.parse_predicate_formula(old_text)
+  exp = old_tree
+  for par, o in parents:
+    exp = rename_tree(exp, [par], o, new)
+  got = pf.parse_predicate_formula(new_text)
+  if got != exp:
+    return "text %r -> %r: tree %s, expected %s" % (old_text, new_text, got, exp)
+  if exp == old_tree and new_text != old_text:
+    return "text %r changed to %r although nothing in it refers to the renamed column" % (old_text, new_text)
+  p = json.loads(parsed) if isinstance(parsed, str) else parsed
+  if p != exp:
+    return "stored parsed form %s does not match the new text %r" % (p, new_text)
+  return None
+
+
+def engine_case(order, ti, ni, path):
+  t, c = ETARGETS[ti]
+  new = ENEW[ni]
+  e, ap = _edoc(order)
+  s0 = _estate(e)
+  cols = e.fetch_table("_grist_Tables_column")
+  tabs = e.fetch_table("_grist_Tables")
+  tref = {tt: r for r, tt in zip(tabs.row_ids, tabs.columns["tableId"])}
+  try:
+    if c is None:
+      if path == 0:
+        ap(["RenameTable", t, new])
+      else:
+        ap(["UpdateRecord", "_grist_Tables", tref[t], {"tableId": new}])
+    else:
+      cref = [r for r, p, cc in zip(cols.row_ids, cols.columns["parentId"], cols.columns["colId"]) if p == tref[t] and cc == c][0]
+      if path == 0:
+        ap(["RenameColumn", t, c, new])
+      else:
+        ap(["UpdateRecord", "_grist_Tables_column", cref, {"colId": new}])
+  except Exception:
+    return True                  # rejected rename: nothing to judge
+  s1 = _estate(e)
+  if c is None:
+    tabs1 = e.fetch_table("_grist_Tables")
+    newt = dict(zip(tabs1.row_ids, tabs1.columns["tableId"]))[tref[t]]
+    ren_t = lambda x: newt if x == t else x
+    # formulas untouched, table ids follow
+    for r0, r1 in zip(s0["rules"], s1["rules"]):
+      if r1["text"] != r0["text"] or (r0["res"] and r1["res"] != (ren_t(r0["res"][0]), r0["res"][1])):
+        raise AssertionError("table rename %s -> %s: rule %s became %s" % (t, newt, r0, r1))
+      if r0["ua"]:
+        u0, u1 = json.loads(r0["ua"]), json.loads(r1["ua"])
+        if u1 != dict(u0, tableId=ren_t(u0["tableId"])):
+          raise AssertionError("table rename %s -> %s: user attribute %s became %s" % (t, newt, u0, u1))
+    if s1["dropdown"]["text"] != s0["dropdown"]["text"] or s1["trigger"]["text"] != s0["trigger"]["text"]:
+      raise AssertionError("table rename changed a condition text")
+    return True
+  cols1 = e.fetch_table("_grist_Tables_column")
+  newc = dict(zip(cols1.row_ids, cols1.columns["colId"]))[cref]
+  attr_table = "U"
+  for r0, r1 in zip(s0["rules"], s1["rules"]):
+    if r0["ua"]:
+      u0, u1 = json.loads(r0["ua"]), json.loads(r1["ua"])
+      exp = dict(u0, lookupColId=newc) if (u0["tableId"] == t and u0["lookupColId"] == c) else u0
+      if u1 != exp:
+        raise AssertionError("rename %s.%s -> %s: user attribute %s became %s, expected %s" % (t, c, newc, u0, u1, exp))
+    if r0["res"]:
+      rt, rc = r0["res"]
+      exp_c = ",".join(newc if (rt == t and x == c) else x for x in rc.split(","))
+      if r1["res"] != (rt, exp_c):
+        raise AssertionError("rename %s.%s -> %s: resource %s became %s" % (t, c, newc, r0["res"], r1["res"]))
+    if r0["text"]:
+      parents = []
+      if r0["res"] and r0["res"][0] == t:
+        parents += [(["Name", "rec"], c), (["Name", "newRec"], c)]
+      if attr_table == t:
+        parents += [(["Attr", ["Name", "user"], "Attr"], c)]
+      m = _expect_text(r0["text"], r1["text"], r1["parsed"], parents, c, newc)
+      if m:
+        raise AssertionError("rename %s.%s -> %s (user-attribute rule at position %d): ACL rule: %s" % (t, c, newc, ORDERS[order].index("UA"), m))
+  d0, d1 = s0["dropdown"], s1["dropdown"]
+  parents = ([(["Name", "rec"], c)] if d0["table"] == t else []) + ([(["Name", "choice"], c)] if d0["type"] == "Ref:" + t else [])
+  m = _expect_text(d0["text"], d1["text"], d1.get("parsed"), parents, c, newc)
+  if m:
+    raise AssertionError("rename %s.%s -> %s: dropdown condition: %s" % (t, c, newc, m))
+  g0, g1 = s0["trigger"], s1["trigger"]
+  parents = [(["Name", "rec"], c), (["Name", "oldRec"], c)] if g0["table"] == t else []
+  m = _expect_text(g0["text"], g1["text"], g1.get("parsed"), parents, c, newc)
+  if m:
+    raise AssertionError("rename %s.%s -> %s: trigger condition: %s" % (t, c, newc, m))
+  return True
+
+
 OBLIGATIONS = []
 ENUM = [
   {"func": "rename_case", "domains": {"ci": list(range(len(SCEN_KEYS))), "si": list(range(len(SHAPES))), "a": list(range(len(ATOMS))),
                                       "b": list(range(len(ATOMS))), "ni": list(range(len(NEW)))}, "shard_by": "ci", "max_s": 400,
    "desc": "parsed(new text) == old tree with exactly the matching .X renamed, for every text of the grammar, scenario and new name"},
+  {"func": "engine_case", "domains": {"order": [0, 1, 2], "ti": list(range(len(ETARGETS))), "ni": list(range(len(ENEW))), "path": [0, 1]},
+   "shard_by": "ti", "max_s": 300,
+   "desc": "engine level: ACL rules (user-attribute rule before / between / after the formula rules), resources, lookupColId, a dropdown "
+           "condition and a trigger condition after RenameColumn / RenameTable / metadata colId, tableId updates"},
   {"func": "invalid_untouched", "domains": {"i": list(range(len(INVALID))), "ci": list(range(len(SCEN_KEYS)))}, "max_s": 60,
    "desc": "texts that do not parse are returned unchanged"},
 ]
 BOUNDS = {"texts": "%d shapes x %d x %d atoms" % (len(SHAPES), len(ATOMS), len(ATOMS)), "new names": NEW, "scenarios": [list(k) for k in SCEN_KEYS],
-          "invalid texts": INVALID}
-FILES = ["sandbox/grist/predicate_formula.py", "sandbox/grist/acl.py", "sandbox/grist/dropdown_condition.py", "sandbox/grist/trigger_expression.py",
+          "invalid texts": INVALID,
+          "engine level": {"targets": [list(x) for x in ETARGETS], "new names": ENEW, "rule orders": ORDERS}}
+FILES = ["sandbox/grist/useractions.py", "sandbox/grist/predicate_formula.py", "sandbox/grist/acl.py", "sandbox/grist/dropdown_condition.py", "sandbox/grist/trigger_expression.py",
          "sandbox/grist/textbuilder.py"]
-ASSUMPTIONS = ["predicate text is concrete per run (ast.parse is C): the grammar is enumerated by the z3 AllSAT loop, not symbolic; engine-level "
-               "wiring (perform_*_renames on metadata records) is not covered here"]
+ASSUMPTIONS = ["predicate text is concrete per run (ast.parse is C): the grammar is enumerated by the z3 AllSAT loop, not symbolic",
+               "engine level: one document (tables A, U; 3 ACL resources; 3 rules in 3 orders; one dropdown and one trigger condition), "
+               "6 rename targets x 3 new names x 2 rename paths"]
